@@ -1295,6 +1295,15 @@ example : drange 63082281600000000 (63082281600000000 + 6 * DAY) (.period [(2, .
     loopBranch (dtBump [(2, .b)]) 63082281600000000 (63082281600000000 + 6 * DAY)
       = .ok [63082281600000000, 63082281600000000 + 4 * DAY, 63082281600000000 + 6 * DAY] := ⟨by rfl, by rfl⟩
 
+/-- the two sentences "t0 == t1 gives [t0]" and "business-day bumps list weekdays only" conflict on a weekend `t0 == t1`: the code (and
+`singleton`, and the law `equal-*`) follow the FIRST — `drange(Sat, Sat, '1b') == [Sat]`, a weekend day in a 'b' list — while one day
+further `drange(Sat, Sun, '1b') == []`.  Recorded reading (review4 v3 §C10.1): the singleton sentence governs; `b_is_weekday_list` has
+`t0 < t1`.  day 737434 is the Saturday of `kb_weekend_grids_differ`. -/
+theorem b_list_singleton_weekend :
+    wdT (737434 * DAY) = 5 ∧ drange (737434 * DAY) (737434 * DAY) (.period [(1, .b)]) = .ok [737434 * DAY]
+    ∧ drange (737434 * DAY) (737435 * DAY) (.period [(1, .b)]) = .ok [] := by
+  refine ⟨by decide, singleton _ _, by rfl⟩
+
 /-! ### round i3 (review t3 §C10 improvements 3-5) -/
 
 /-- `timedelta(n)` and `'nd'` give identical lists for ANY endpoints (no whole-day condition: intraday endpoints are inside the
